@@ -1,7 +1,7 @@
-\* as found, three registrations
+\* as found, both families, one free call, one print
 SPECIFICATION Spec
 CONSTANTS
-  Regs = {"r1", "r2", "r3"}
+  Regs = {"r1", "r2"}
   Srcs = {"detector", "api"}
   RFams = {"v4", "v6"}
   Gens = {"g1"}
@@ -9,9 +9,11 @@ CONSTANTS
   LVs = {"l1"}
   Variant = "as_found"
   Broken = "none"
-  MaxPrints = 2
+  MapWindow = TRUE
+  MaxPrints = 1
   MaxFree = 1
 VIEW view
-INVARIANTS TypeOK ActiveExact TotalsExact Breakdowns NoDoubleCount MapLedger
+CONSTRAINT Canon
+INVARIANTS TypeOK ActiveExact TotalsExact Breakdowns NoDoubleCount
 PROPERTIES PrintKeepsGauges
 CHECK_DEADLOCK FALSE
